@@ -1,7 +1,7 @@
 (* C16 - Encoding conversion keeps structure; checked conversion yields only valid paths. *)
 From Coq Require Import List NArith Bool.
 Import ListNotations.
-From TP Require Import Core CoreProofs Path Unix Win Spec GenJoin WinSimple C16Proofs.
+From TP Require Import Core CoreProofs Path Unix Win Spec GenJoin WinSimple C16Proofs WinExtend C11WinPrefixed C16Win WinVerbJoin WinVerbMore.
 
 (* converting a path to its own encoding returns the same bytes *)
 Theorem C16_same : forall l : list N,
@@ -45,8 +45,31 @@ Lemma C16_d12_refuted : u_to_w_checked [120;47;97;92;98] = (Some [120;92;97;92;9
 Proof. vm_compute. reflexivity. Qed.
 Lemma C16_d14_refuted : w_to_w_checked [92;92;115;92;115;104;92;97] = (Some [92;97], None).   (* \\s\sh\a -> Ok(\a) *)
 Proof. vm_compute. reflexivity. Qed.
-(* C16_partial: Windows sources with a prefix (drive, UNC, verbatim, device), the Windows -> Unix checked
-   form and the UTF-8 / typed forms are decided on every explored case by oracle_c16. *)
+(* "a Windows prefix is dropped, and a rooted or non-disk-prefixed Windows path becomes a rooted Unix path":
+   for a source with a UNC, device-namespace or drive prefix followed by a rooted rest the Unix result has
+   exactly the components of the rest; after a UNC or device prefix the rest is always rooted (C16Win.v) *)
+Theorem C16_windows_prefixed_to_unix : forall (l : list N) (k : wprefix) (r : list N),
+  wprefix_grammar l = Some (k, r) -> k_verbatim k = false -> g_rooted (wsep true) r = true ->
+  ucomps (w_to_u l) = gcomps (wsep true) r.
+Proof. exact w_to_u_prefixed. Qed.
+Theorem C16_windows_nondisk_to_unix : forall (l : list N) (k : wprefix) (r : list N),
+  wprefix_grammar l = Some (k, r) -> k_verbatim k = false -> is_disk k = false -> r <> [] ->
+  ucomps (w_to_u l) = gcomps (wsep true) r /\ exists t, gcomps (wsep true) r = Root :: t.
+Proof. exact w_to_u_nondisk. Qed.
+Print Assumptions C16_windows_prefixed_to_unix.
+Print Assumptions C16_windows_nondisk_to_unix.
+(* ... and for a source with a VERBATIM prefix followed by a root: a rooted Unix path, the prefix dropped, the
+   components after the root kept when none of them is a "." (under exactly \\?\ a "." is a component, which the
+   Unix reading skips) and the names are names in both readings *)
+Theorem C16_windows_verbatim_to_unix : forall (l : list N) (k : wprefix) (r : list N),
+  wprefix_grammar l = Some (k, r) -> k_verbatim k = true -> k <> Verbatim [85; 78; 67] ->
+  sep_headed (s_wsep (s_norm l)) r ->
+  exists items, spec_comps (s_wsep (s_norm l)) (s_norm l) r = Root :: items /\
+    (Forall (fun c => c <> Cur) items -> Forall gn_comp items -> ucomps (w_to_u l) = Root :: items).
+Proof. exact w_to_u_verbatim. Qed.
+Print Assumptions C16_windows_verbatim_to_unix.
+(* C16_partial: Windows sources that are a bare prefix, the Windows -> Unix checked form and the UTF-8 / typed
+   forms are decided on every explored case by oracle_c16. *)
 
 Example C16_example :
   u_to_w [47;116;109;112;47;97;46;98] = [92;116;109;112;92;97;46;98]
